@@ -30,6 +30,12 @@ const NAMES: [&str; 14] = [
     "Content-Type", "X-A", "x-b", "Set-Cookie", "Server", "Date", "Vary", "ETag", "x-Long-Header-Name-0123456789",
     "Set-Cookie", "X-A", "Cache-Control", "Connection", "Via",
 ];
+/// names with a meaning elsewhere in the protocol; to a head parser they are fields like any other
+const LOADED_NAMES: [&str; 12] = [
+    "Location", "Content-Location", "Expect", "Upgrade", "Trailer", "Keep-Alive", "Retry-After", "WWW-Authenticate", "Allow", "TE", "Age", "Refresh",
+];
+/// for the standalone parsers (no framing semantics behind them) also these
+const WILD_NAMES: [&str; 6] = ["Expect", "Host", "Content-Length", "Transfer-Encoding", "expect", "Content-length"];
 
 /// (bytes on the wire after the colon, expected value with surrounding whitespace stripped)
 fn gen_value(rng: &mut StdRng) -> (Vec<u8>, Vec<u8>) {
@@ -66,6 +72,8 @@ pub struct HeadOpts {
     pub loc_at: Option<usize>,
     pub request: Option<&'static str>,
     pub framing: bool,
+    /// standalone parser: any field name goes
+    pub wild: bool,
 }
 
 pub fn gen_head(rng: &mut StdRng, o: &HeadOpts) -> GenHead {
@@ -103,8 +111,15 @@ pub fn gen_head(rng: &mut StdRng, o: &HeadOpts) -> GenHead {
         } else if o.framing && i == 1 && rng.gen_bool(0.3) {
             ("Transfer-Encoding".to_string(), b" chunked".to_vec(), b"chunked".to_vec())
         } else {
-            let n = NAMES[rng.gen_range(0..NAMES.len())];
-            let (w, v) = gen_value(rng);
+            let n = match rng.gen_range(0..10) {
+                0 | 1 => LOADED_NAMES[rng.gen_range(0..LOADED_NAMES.len())],
+                2 | 3 if o.wild => WILD_NAMES[rng.gen_range(0..WILD_NAMES.len())],
+                _ => NAMES[rng.gen_range(0..NAMES.len())],
+            };
+            let (w, v) = if n.eq_ignore_ascii_case("expect") && rng.gen_bool(0.5) { (b" 100-continue".to_vec(), b"100-continue".to_vec()) } else { gen_value(rng) };
+            if n == "Location" {
+                locs.push(i + 1);
+            }
             (n.to_string(), w, v)
         };
         b.extend(name.as_bytes());
@@ -298,7 +313,7 @@ pub fn c05(o: &Opts, t: &mut Tracer) -> Value {
         } else {
             None
         };
-        let ho = HeadOpts { nfields, status, http10: i % 3 == 0, reason: (i % 4) as u8, loc_at, request: None, framing: nfields >= 2 && i % 2 == 0 };
+        let ho = HeadOpts { nfields, status, http10: i % 3 == 0, reason: (i % 4) as u8, loc_at, request: None, framing: nfields >= 2 && i % 2 == 0, wild: false };
         let g = gen_head(&mut rng, &ho);
         selfcheck_head(&g);
         t.case(json!({"ev":"case","comp":"head","lay":g.lay(),"note":format!("status {} fields {}", status, nfields)}));
@@ -371,7 +386,7 @@ pub fn c20(o: &Opts, t: &mut Tracer) -> Value {
                     }
                     let status: u16 = [200u16, 100, 302, 404, 999, 204][rng.gen_range(0..6)];
                     let request = if kind == 1 { Some(METHODS[rng.gen_range(0..9)]) } else { None };
-                    let ho = HeadOpts { nfields, status, http10: rng.gen_bool(0.4), reason: rng.gen_range(0..4), loc_at: if nfields > 0 && rng.gen_bool(0.4) { Some(rng.gen_range(0..nfields)) } else { None }, request, framing: false };
+                    let ho = HeadOpts { nfields, status, http10: rng.gen_bool(0.4), reason: rng.gen_range(0..4), loc_at: if nfields > 0 && rng.gen_bool(0.4) { Some(rng.gen_range(0..nfields)) } else { None }, request, framing: false, wild: true };
                     let g = gen_head(&mut rng, &ho);
                     selfcheck_head(&g);
                     t.case(json!({"ev":"case","comp":"head","lay":g.lay(),"note":format!("limit {} fields {} kind {}", limit, nfields, kind)}));
@@ -482,7 +497,7 @@ pub fn c06(o: &Opts, t: &mut Tracer) -> Value {
                                 let v = [u64::MAX, u64::MAX - 1, 1u64 << 63, 9999999999999999999][pick];
                                 (v.to_string(), v)
                             }
-                            "nonnum" => (["abc", "12a", "-1", "1.5"][pick].to_string(), 0),
+                            "nonnum" => ([["abc", "12a", "-1", "1.5"], ["5, 5", "5,5", "0, 0", "7 7"], ["5;5", "0x10", "1e3", "12,"]][(status as usize / 3 + mi + ti) % 3][pick].to_string(), 0),
                             _ => (String::new(), 0),
                         };
                         let te_text = match *te {
@@ -504,13 +519,18 @@ pub fn c06(o: &Opts, t: &mut Tracer) -> Value {
                         if !te_first && *te != "absent" {
                             head.push_str(&format!("Transfer-Encoding: {}\r\n", te_text));
                         }
-                        head.push_str("X-Other: 1\r\n\r\n");
+                        // the framing decision must not depend on whether the connection is going to be closed anyway
+                        let closing = (status as usize / 2 + mi + ci + 2 * ti) % 5;
+                        head.push_str(if closing == 4 { "Connection: close\r\n\r\n" } else { "X-Other: 1\r\n\r\n" });
+                        if closing != 0 {
+                            t.class("cell:closing-connection");
+                        }
                         let api = if (status as usize + ci + ti) % 5 == 0 { "call" } else { "flow" };
                         let mut e = json!({"ev":"cell","method":method,"status":status,"http10":http10,"cl":cl,"clv":limbs(clv),"te":te,"api":api,
                                            "res":"none","next":"none","mode":"","moden":limbs(0),"closedelim":false,"interim_ok":true});
                         cells += 1;
                         if api == "flow" {
-                            let mut f = flow_recv_response(method);
+                            let mut f = crate::fx::flow_recv_response_v(method, closing % 4);
                             match guarded(|| f.try_response(head.as_bytes())) {
                                 None => {
                                     t.ev(json!({"ev":"panic","during":"try_response (framing cell)"}));
@@ -559,7 +579,7 @@ pub fn c06(o: &Opts, t: &mut Tracer) -> Value {
                                             // the interim cell itself: judged as usual below, from a twin flow
                                             t.class("cell:after-interim");
                                             t.ev(e2);
-                                            f = flow_recv_response(method);
+                                            f = crate::fx::flow_recv_response_v(method, closing % 4);
                                             let _ = guarded(|| f.try_response(head.as_bytes()));
                                         }
                                         match guarded(|| f.proceed()) {
